@@ -7,13 +7,17 @@ state of the process-wide curve objects are inputs.  Every theorem is a composit
 C02S, C06, C10, C16, C18 through the glue lemmas of Proofs/EcAll.lean; nothing about a check is
 re-proved here.
 
-Common hypothesis `FieldPrimes`: the field moduli of the nine curves of `CURVE_FACTORY` are prime
-(validated per run by gmpy2.is_prime, as in C10 / C02S).  "fresh" = `test_info` is a newly
-constructed `TestInfo()`.
+No primality hypothesis: `FieldPrimes` (the field moduli of the nine curves of `CURVE_FACTORY` are
+prime) is the theorem `fieldPrimes` (Proofs/EcAllPrimes.lean, from the kernel-checked Pratt
+certificates of Props/C11Primes.lean).  No hypothesis on `EcParams.bound` either: totality holds for
+every value of the literal `2**32` (Proofs/EcAllBound.lean), in particular for the `2**16` the quick
+tier of harness/corr/ecall.py runs the real code with.  "fresh" = `test_info` is a newly constructed
+`TestInfo()`.
 -/
 import ParanoidModel.Proofs.EcAll
 import ParanoidModel.Props.C06
 import ParanoidModel.Proofs.EcAllFast
+import ParanoidModel.Proofs.EcAllBound
 namespace Paranoid.EcAll
 open Paranoid Paranoid.Ec Paranoid.Bsgs WeierstrassCurve
 
@@ -21,15 +25,18 @@ open Paranoid Paranoid.Ec Paranoid.Bsgs WeierstrassCurve
 
 /-- ★ totality (C18 end to end).  On a well-formed call (`ECWF`: reachable `_table` states, every
 key with a known curve id is a reduced point of its curve, float oracles `≥ 1` where a table is
-built) with the literal `2**32` and any `max_diff`, `CheckAllEC` returns: none of the four registered
-checks raises, the check models and the bookkeeping layer agree about which keys get an entry, and
-the bookkeeping layer does not raise — whatever `test_info` the keys already carry.  The states left
-behind are again reachable, so the next call on the same curve objects is covered too. -/
-theorem checkAllECFull_total (hp : FieldPrimes) (p : EcParams) (hb : p.bound = 2 ^ 32)
+built) with ANY value `p.bound` of the literal `2**32` and any `max_diff`, `CheckAllEC` returns: none
+of the four registered checks raises, the check models and the bookkeeping layer agree about which
+keys get an entry, and the bookkeeping layer does not raise — whatever `test_info` the keys already
+carry.  The states left behind are again reachable, so the next call on the same curve objects is
+covered too.  (The bound enters only through the float `int(math.sqrt(bound * len(all_points)))`,
+which `ECWF.wk` asks to be `≥ 1`: with the real `math.sqrt`, every bound `≥ 1`.  No primality
+hypothesis: `fieldPrimes`.) -/
+theorem checkAllECFull_total (p : EcParams)
     (o : EcOracle) (sts : List EcState) (arts : List Artifact) (hwf : ECWF p o sts arts) :
     ∃ arts' r sts', checkAllECFull p o sts arts = .ok ((arts', r), sts') ∧
       StatesOK ecFactory sts' := by
-  obtain ⟨rows, sts', hrows, hst'⟩ := ecRowsG_total hp p hb o sts arts hwf
+  obtain ⟨rows, sts', hrows, hst'⟩ := ecRowsG_totalB p o sts arts hwf
   obtain ⟨⟨arts', r⟩, hbk⟩ := checkArtifacts_ok .repaired Consts.libVersion ecAll
     (mkSteps ecAll (verdictAt rows) noInner)
     (fun s hs => by
@@ -41,18 +48,21 @@ theorem checkAllECFull_total (hp : FieldPrimes) (p : EcParams) (hb : p.bound = 2
 other keys may be off their curve, unreduced, duplicates, on unknown curves; any bound, `max_diff`,
 `_table` states and float-oracle values — for the key at position `n` on a known curve `c`:
 
-* a `DISCRETE_LOG` attached to it is `format(v, "x")` for an integer `v` which, when the key is a
-  valid point (on the curve, `n • P = ∞`), satisfies `v • G = P`;
+* a `DISCRETE_LOG` attached to it is `format(v, "x")` for an integer `v` which, when the key is on
+  the curve and `n • P = ∞`, satisfies `v • G = P`.  (`n • P = ∞` is a HYPOTHESIS: for the nine
+  cofactor-1 curves it is what `IsValidPublicKey` gives only together with `#E(F_p) = n`, which is
+  not proved.  For keys that have a private key, `P = d • G`, it is not needed:
+  `checkAllEC_dlogs_sound_priv`, Props/C16EcAllCert.lean.);
 * a `DISCRETE_LOG_DIFF` attached to it is the string `"key - (qx, qy) = d * G"` of a relation which,
   when all keys of the batch with the same curve id are on the curve, names ANOTHER key `Q` of the
   batch on the same curve with `P ≠ Q` and `P - Q = d • G`. -/
-theorem checkAllEC_dlogs_sound (hp : FieldPrimes) (p : EcParams) (o : EcOracle) (sts : List EcState)
+theorem checkAllEC_dlogs_sound (p : EcParams) (o : EcOracle) (sts : List EcState)
     (arts arts' : List Artifact) (r : Bool) (sts' : List EcState)
     (hfresh : ∀ a ∈ arts, a.info = TestInfo.empty)
     (h : checkAllECFull p o sts arts = .ok ((arts', r), sts'))
     (n : Nat) (a a' : Artifact) (ha : arts[n]? = some a) (ha' : arts'[n]? = some a')
-    (c : Curve) (hc : factoryGet ecFactory a.curve = some c) (hpc : Nat.Prime c.p) :
-    haveI : Fact (Nat.Prime c.p) := ⟨hpc⟩
+    (c : Curve) (hc : factoryGet ecFactory a.curve = some c) :
+    haveI : Fact (Nat.Prime c.p) := ⟨prime_of_get hc⟩
     (∀ x, getAttachedInfo a'.info infoNameDiscreteLog = some x →
       ∃ v : Int, x = .raw (Proto.hexInt v) ∧
         (onCurve c (keyOf a).pt = true → c.n • toPoint c (keyOf a).pt = 0 →
@@ -65,7 +75,9 @@ theorem checkAllEC_dlogs_sound (hp : FieldPrimes) (p : EcParams) (o : EcOracle) 
             toPoint c (.aff rel.qx rel.qy) = toPoint c (keyOf b).pt ∧
             toPoint c (keyOf a).pt - toPoint c (keyOf b).pt = rel.dl • Gp c ∧
             toPoint c (keyOf a).pt ≠ toPoint c (keyOf b).pt)) := by
+  have hpc : Nat.Prime c.p := prime_of_get hc
   haveI : Fact (Nat.Prime c.p) := ⟨hpc⟩
+  have hp : FieldPrimes := fieldPrimes
   obtain ⟨rows, hrows, hbk⟩ := checkAllECFull_ok h
   obtain ⟨row1, row3, row4, sts3, rfl, hv, hw, hd, _⟩ := ecRowsG_ok hrows
   have hkey := keys_getElem? ha
@@ -460,16 +472,19 @@ theorem checkAllECDSA_entries (p : EcParams) (O : SigOracle) (st : SigState XTab
 /-- ★ totality of `CheckAllECDSASigs` (C18 end to end).  On a well-formed call (`SigWF`: valid
 curve objects that are those of `CURVE_FACTORY` up to `_cache`, reachable `_table` states,
 `list(set)` oracles that are enumerations, `s` invertible modulo the curve order for signatures
-with a known curve, well-formed inner `CheckAllEC` call on the distinct issuer keys) with the
-literal `2**32`: all eight registered checks return — for ANY solver answers, ANY `r`, hash length,
+with a known curve, well-formed inner `CheckAllEC` call on the distinct issuer keys) with ANY
+value of the literal `2**32`: all eight registered checks return — for ANY solver ANSWERS (the solvers are
+answer oracles of this model: an exception raised inside a solver, e.g. `Cr50U2fGuesses` for `r ≡ 0 (mod n)`,
+is not modelled here; `C18Ec.checkAllECDSASigs_solver_total` composes the solver models under
+`r, s ∈ [1, n-1]` and drops the valid-issuer-key clause of `SigWF`), any hash length,
 batch size, duplicates and unknown curve ids — the check models and the bookkeeping layer agree
 about which signatures get an entry, the bookkeeping layer does not raise (whatever `test_info` the
 signatures already carry), and the curve objects are left in a state from which the next call is
 covered again. -/
-theorem checkAllECDSASigsFull_total (hp : FieldPrimes) (p : EcParams) (hb : p.bound = 2 ^ 32)
+theorem checkAllECDSASigsFull_total (p : EcParams)
     (O : SigOracle) (st : SigState XTable) (sarts : List SigArt) (hwf : SigWF p O st sarts) :
     ∃ run, checkAllECDSASigsFull p O st sarts = .ok run ∧ TotInv run.state := by
-  obtain ⟨outs, st', hsteps, hi'⟩ := sigStepsG_total hp hb hwf ecdsaAll.zipIdx
+  obtain ⟨outs, st', hsteps, hi'⟩ := sigStepsG_totalB hwf ecdsaAll.zipIdx
     (fun cj hcj => by
       have := List.mem_zipIdx hcj
       simp only [Nat.zero_le, Nat.zero_add, Nat.sub_zero, true_and] at this
